@@ -8,6 +8,8 @@ use crate::hist::panic_to_fail;
 use crate::interp::{run_history, World};
 use crate::model::{covers, key_of, mk, raw_of, Key, Model, Raw};
 use crate::observe::{check_contents, shape_of};
+#[allow(unused_imports)]
+use crate::observe::check_arena;
 use crate::ops::*;
 use crate::tp::TP;
 use prefix_trie::{AsViewMut, PrefixMap, TrieViewMut};
@@ -148,7 +150,7 @@ pub fn make_views<'a, P: TP>(map: &'a mut PrefixMap<P, u64>, plan: &[PlanStep], 
 }
 
 /// Part 1: all `&mut` alive together point to pairwise distinct entries; views do not overlap.
-pub fn identity_check<P: TP>(map: &mut PrefixMap<P, u64>, model: &mut Model, c: &C14Case, env: &mut Env) -> R {
+pub fn identity_check<P: TP>(map: &mut PrefixMap<P, u64>, model: &mut Model, c: &C14Case, env: &mut Env, with_model: bool) -> R {
     let lim = 4 * model.len() + 64;
     env.cur_op = "view_mut.split";
     let mut views = make_views(map, &c.plan, &env.uni);
@@ -201,7 +203,7 @@ pub fn identity_check<P: TP>(map: &mut PrefixMap<P, u64>, model: &mut Model, c: 
                 }
                 let mut want: Vec<Key> = ea.iter().chain(eb.iter()).copied().collect();
                 want.sort();
-                ensure!(got == want, "C14", "C14:union_mut:keys", "union_mut over two disjoint views {:?} / {:?} of one map yields {:?}, expected {:?}", sa, sb, got, want);
+                ensure!(!with_model || got == want, "C14", "C14:union_mut:keys", "union_mut over two disjoint views {:?} / {:?} of one map yields {:?}, expected {:?}", sa, sb, got, want);
                 env.ev("c14_pair_union");
             }
             2 => {
@@ -219,7 +221,7 @@ pub fn identity_check<P: TP>(map: &mut PrefixMap<P, u64>, model: &mut Model, c: 
                     got.push(key_of(it.prefix));
                     push(&mut all, it.prefix, it.value);
                 }
-                ensure!(got == ea, "C14", "C14:difference_mut:keys", "difference_mut over two disjoint views yields {:?}, expected all of the left view {:?}", got, ea);
+                ensure!(!with_model || got == ea, "C14", "C14:difference_mut:keys", "difference_mut over two disjoint views yields {:?}, expected all of the left view {:?}", got, ea);
                 env.ev("c14_pair_difference");
             }
         }
@@ -232,7 +234,7 @@ pub fn identity_check<P: TP>(map: &mut PrefixMap<P, u64>, model: &mut Model, c: 
             got.push(key_of(p));
             push(&mut all, p, x);
         }
-        ensure!(got == want, "C14", "C14:view-keys", "a view with scope {:?} hands out references to {:?}, its entries are {:?}", s, got, want);
+        ensure!(!with_model || got == want, "C14", "C14:view-keys", "a view with scope {:?} hands out references to {:?}, its entries are {:?}", s, got, want);
     }
     if all.len() >= 8 {
         env.ev("c14_refs_ge8");
@@ -248,6 +250,10 @@ pub fn identity_check<P: TP>(map: &mut PrefixMap<P, u64>, model: &mut Model, c: 
         ensure!(w[0] != w[1], "C14", "C14:aliasing:same-entry", "two live mutable references were handed out for the entry {:?}", w[0]);
     }
     // every reference belongs to a stored entry holding the expected value; write through all of them
+    if !with_model {
+        env.evn("c14_views", nviews as u64);
+        return Ok(());
+    }
     for (k, _, r) in all {
         let Some(st) = model.m.get_mut(&k) else {
             return fail("C14", "C14:ref-to-unknown-entry", format!("a mutable reference was handed out for {:?} which is not stored", k));
@@ -411,6 +417,16 @@ pub fn run_c14_case<P: TP>(c: &C14Case, env: &mut Env, threads: bool) -> R {
     let mut w: World<P, u64, SV> = World::new();
     env.focus = Focus(0);
     if let Err(f) = run_history(&mut w, &c.case.ops, env) {
+        let shared_node = matches!(crate::observe::check_arena(&mut w.a, env), Err(ref a) if a.sig == "C16:slot-reached-twice");
+        if shared_node {
+            // The history produced a node that is reachable along two paths (no cycle). Whatever the
+            // cause, mutable traversals over such a structure hand out aliasing references: that is
+            // observable without a model (addresses / keys of the live references, overlapping views).
+            env.focus = Focus::of(&[14]);
+            env.ev("c14_identity_on_shared_node_state");
+            let crate::env::Side { map, model, .. } = &mut w.a;
+            return identity_check(map, model, c, env, false);
+        }
         return Err(crate::env::Fail {
             prop: "BUILD",
             sig: format!("BUILD:{}", f.sig),
@@ -422,7 +438,7 @@ pub fn run_c14_case<P: TP>(c: &C14Case, env: &mut Env, threads: bool) -> R {
         thread_check(&w.a.map, c, env)?;
     }
     let crate::env::Side { map, model, .. } = &mut w.a;
-    identity_check(map, model, c, env)?;
+    identity_check(map, model, c, env, true)?;
     // all writes landed where the references pointed
     check_contents(&w.a, env).map_err(|f| crate::env::Fail {
         prop: "C14",
